@@ -1,7 +1,7 @@
 import ast
 """C10 -- significant and bracketed durations locate threshold crossings exactly (structure of the masks)."""
 from ..tyob import *  # noqa
-from ..tyob import sibling_defaults, analyse, expect, item, unmodelled_in, check_forwarder, only_managed_reads
+from ..tyob import sibling_defaults, analyse, expect, item, unmodelled_in, check_forwarder, only_managed_reads, libns_for
 
 ACC = "eqsig.single.AccSignal"
 F = "F"  # atom of a user supplied cumulative measure
@@ -220,6 +220,11 @@ def run(chk):
     chk.floor("R-REL", 40)
     chk.floor("R-ENDS", 28)
     chk.floor("R-MEASURE", 17)
+    chk.rule("R-LIBNS", "every NumPy/SciPy name referenced by the anchored duration functions (the deprecated AccSignal.generate_duration_stats "
+                        "included) exists in the installed library (resolved from the installed stubs/sources, nothing imported)")
+    libns_for(chk, "R-LIBNS", ["eqsig.single.AccSignal.generate_duration_stats", "eqsig.im.calc_sig_dur_vals", "eqsig.im.calc_sig_dur",
+                               "eqsig.im.calc_brac_dur", "eqsig.im.calc_significant_duration", "eqsig.im.calc_bracketed_duration"])
+    chk.floor("R-LIBNS", 6)
 
 
 def _emptiness_polarity(t):
